@@ -616,6 +616,16 @@ func c03Copy(p *Program, r *Report) {
 		for _, s := range errReturnSites(f) {
 			if isNilConst(s.val) && siteReachable(f, s, cut) {
 				bad = true
+				if os.Getenv("VGW_DEBUG") != "" {
+					pb, hb := -1, -1
+					if s.pred != nil {
+						pb = s.pred.Index
+					}
+					if s.phiB != nil {
+						hb = s.phiB.Index
+					}
+					fmt.Fprintf(os.Stderr, "R-C03-4 %s: nil site ret@%s block %d pred %d phiB %d\n", name, p.Pos(s.ret.Pos()), s.ret.Block().Index, pb, hb)
+				}
 			}
 		}
 		r.Check(!bad, "R-C03-4", keys[g]+":"+name, p.Pos(g.Pos()), "nil return only through this check's success edge (or the root/admin shortcut)",
